@@ -377,6 +377,9 @@ class LogicalType(type):  # noqa
                 except Exception as e:
                     context.handle_error(e)
                     break
+            # when errors are collected handle_error() only records the failure:
+            # raise it here, like the other combinators do, instead of returning the value
+            context.raise_error()
             return value
 
         elif cls.combinator == "|":
